@@ -262,13 +262,12 @@ theorem loops_eq_run2 (sep : Bool) (cs : List UInt8) : loops sep cs = run2 sep c
 
 /-- `parseNumber` = fold of `step2` over the bytes, then `finish` -/
 theorem parseNumber_eq_run2 (g : Globals) (d : Go.Bytes) (neg sep : Bool)
-    (hred : ∀ rm neg sig exp trunc, ∃ r, Gen.RoundingMode.reduce128 rm neg sig exp trunc = .ok r)
     (hsz : d.size < 2^63) :
     Gen.parseNumber g d neg sep =
       match run2 sep d.toList (toS2 init1) with
       | none => .ok ((default : Gen.Decimal), Go.Err.parseNumberSyntaxError)
       | some s => finish g neg s := by
-  rw [parseNumber_eq_model g d neg sep hred hsz, model, loops_eq_run2]
+  rw [parseNumber_eq_model g d neg sep hsz, model, loops_eq_run2]
   rfl
 
 end Parse
